@@ -74,8 +74,14 @@ def handle (op : String) (j : Json) : Option (Except String Json) :=
   | "c04.iop" => some do
       .ok (J.ofOp (C04.jwInteractionOp tol (← J.nat (← J.field j "n")) (← J.gq (← J.field j "constant"))
         (← gqList (← J.field j "one")) (← gqList (← J.field j "two"))))
+  | "c04.iop_ok" => some do
+      .ok (Json.bool (C04.jwInteractionOpOk tol (← J.nat (← J.field j "n")) (← J.gq (← J.field j "constant"))
+        (← gqList (← J.field j "one")) (← gqList (← J.field j "two"))))
   | "c04.dch" => some do
       .ok (J.ofOp (C04.jwDCH tol (← J.nat (← J.field j "n")) (← J.gq (← J.field j "constant"))
+        (← gqList (← J.field j "one")) (← gqList (← J.field j "two"))))
+  | "c04.dch_ok" => some do
+      .ok (Json.bool (C04.jwDCHOk tol (← J.nat (← J.field j "n")) (← J.gq (← J.field j "constant"))
         (← gqList (← J.field j "one")) (← gqList (← J.field j "two"))))
   | "c04.reverse" => some do .ok (J.ofOp (C04.reverseJW tol (← J.op (← J.field j "Q"))))
   | "c04.jw_check" => some (jwCheck j)
